@@ -469,8 +469,40 @@ func (p SpendPolicy) MarshalJSON() ([]byte, error) {
 	return json.Marshal(v)
 }
 
+// jsonNestingExceeds reports whether the JSON text b nests arrays and objects
+// more than limit levels deep. It stops at the first offending bracket.
+func jsonNestingExceeds(b []byte, limit int) bool {
+	depth, inString := 0, false
+	for i := 0; i < len(b); i++ {
+		switch c := b[i]; {
+		case inString:
+			if c == '\\' {
+				i++
+			} else if c == '"' {
+				inString = false
+			}
+		case c == '"':
+			inString = true
+		case c == '[' || c == '{':
+			if depth++; depth > limit {
+				return true
+			}
+		case c == ']' || c == '}':
+			depth--
+		}
+	}
+	return false
+}
+
 // UnmarshalJSON implements json.Unmarshaler.
 func (p *SpendPolicy) UnmarshalJSON(b []byte) (err error) {
+	// NOTE: each threshold level below re-validates and copies the remainder of
+	// the document (json.RawMessage), so an unbounded nesting depth makes the cost
+	// quadratic in the input size. A policy that respects maxPolicyDepth nests at
+	// most three JSON levels per threshold plus a few for the leaf.
+	if jsonNestingExceeds(b, 3*(maxPolicyDepth+1)+8) {
+		return fmt.Errorf("policy exceeds maximum nesting depth of %d", maxPolicyDepth)
+	}
 	var v struct {
 		Type   string          `json:"type"`
 		Policy json.RawMessage `json:"policy"`
